@@ -324,6 +324,12 @@ struct Pools {
          reg(initializers, *greg->make_braced_provision(), "IN");
          reg(named_caps, caps.enclosing_local_capture(*decls.back(), ipr::Binding_mode::Copy), "NC");
       }
+      // declarations named by something other than an identifier: an operator, a conversion, a constructor name
+      const ipr::Name* odd[] = { &lex.get_operator(u8"+"), &lex.get_conversion(*types[7]), &lex.get_ctor_name(*types[8]) };
+      for (int k = 0; k < 3; ++k) {
+         names().set(ident(*odd[k]), "DN" + std::to_string(6 + k));
+         auto* v = greg->declare_var(*odd[k], *types[6 + k]); reg(decls, *v, "D");
+      }
    }
 };
 }
